@@ -319,6 +319,13 @@ def unmarshalText (_w0 : WFN) (b : Str) : Option WFN :=
     "does not error and leaves the WFN in its current state" (documented). -/
 def scanText (w0 : WFN) (b : Str) : Option WFN := if b = [] then some w0 else unbind b
 
+/-- The receiver after `UnmarshalText` / `Scan` and whether the call succeeded:
+    a text that is rejected leaves the receiver untouched (/repo e515da9a). -/
+def intoReceiver (w0 : WFN) (r : Option WFN) : WFN × Bool :=
+  match r with
+  | some w => (w, true)
+  | none => (w0, false)
+
 /-- `NewValue(v)` succeeds. -/
 def newValueOk (v : Str) : Bool := validate v && !v.isEmpty
 
@@ -432,5 +439,49 @@ def substringMatch (record vuln : WFN) : Bool :=
 /-- The CPE condition of `Matcher.Vulnerable`: the advisory CPE is the source. -/
 def gate (vuln record : WFN) : Bool :=
   isSuperset (compare vuln record) || substringMatch record vuln
+
+/-- One call of `Matcher.Vulnerable`, as far as CPEs go, on a vulnerability
+    whose repository has the name `name` and holds the CPE `held` (left by an
+    earlier call or put there by the caller) against a record whose repository
+    CPE is `record`: the verdict, and the CPE the vulnerability's repository
+    holds afterwards (`Vulnerable` stores what `Repo.Name` unbinds to; `none`:
+    the name did not unbind — what is stored then is not modelled).  `held` is
+    not read. -/
+def vulnCall (name : Str) (_held : WFN) (record : WFN) : Bool × Option WFN :=
+  match unbind name with
+  | none => (false, none)
+  | some v => (gate v record, some v)
+
+/-- A history on ONE `*Vulnerability` / `*Repository` / `*IndexRecord`: the
+    caller changes fields between calls. -/
+inductive VOp where
+  | name (s : Str)
+  | held (w : WFN)
+  | record (w : WFN)
+  | call
+
+structure HSt where
+  name : Str
+  held : WFN
+  record : WFN
+
+def vInitSt : HSt := ⟨[], List.replicate 11 unsetValue, List.replicate 11 unsetValue⟩
+
+def vOpStep (st : HSt) : VOp → HSt × Option Bool
+  | .name s => ({ st with name := s }, none)
+  | .held w => ({ st with held := w }, none)
+  | .record w => ({ st with record := w }, none)
+  | .call =>
+    let r := vulnCall st.name st.held st.record
+    ({ st with held := r.2.getD st.held }, some r.1)
+
+/-- The verdicts of the calls of a history, in order. -/
+def vRun : HSt → List VOp → List Bool
+  | _, [] => []
+  | st, op :: ops =>
+    let r := vOpStep st op
+    match r.2 with
+    | some b => b :: vRun r.1 ops
+    | none => vRun r.1 ops
 
 end ClairModel.Cpe
